@@ -113,6 +113,8 @@ def siblings(ctx):
         mi = ModelInstance(number_of_players=n, game_class=comp, game_generator=gen, gap_function=gap, seed=seed,
                            run_steps_limit=rng.choice([None, None, 3]))
         envs = [mi.get_env() for _ in range(rng.choice([2, 2, 3]))]
+        for e_ in envs:
+            e_.verif_computer = BOUNDS[comp]
         chosen = [None] * len(envs)          # None = not reset yet
         trace = []
         init_ids = games.minimal_ids(n)
